@@ -12,6 +12,7 @@ Definition direct_tcp (shape : N) (ls ts : list N) : list N :=
   | 0 | 1 | 2 => [T; 1; 1; 4 + L; 1; 1]     (* both directions complete, both ends see a clean EOF *)
   | 3 => [T; 1; 1; 4; 1; 0]                 (* target wrote and closed: local gets it all, then EOF *)
   | 4 => [0; 1; 0; 4 + L; 1; 1]             (* local wrote and closed: target gets it all, then EOF *)
+  | 7 => [0; 1; 1; 4 + 3145728; 1; 1]       (* slow, half-closed target: the whole 3 MB upload arrives, then EOF *)
   | 6 => [T; 1; 1; 0; 1; 0]                 (* target answered, then closed while the local client uploads: the upload fails *)
   | _ => [0; 1; 1; 0; 1; 0]                 (* refused: the local connection is closed *)
   end.
